@@ -117,6 +117,9 @@ func (conn *Conn) recv() {
 				if len(req.Rc.Buf) > int(conn.Msize) {
 					req.Rc.Buf = req.Rc.Buf[:conn.Msize]
 				}
+				// and it still describes the reply it carried last
+				req.Rc.Type = 0
+				req.Rc.Pkt = nil
 			default:
 				req.Rc = NewFcall(conn.Msize)
 			}
